@@ -99,7 +99,7 @@ def run(ctx) -> None:
     rng = ctx.rng("c11")
     names = list(FILES)
     res.rule = (
-        "cases are run configurations over a 6-file probe set: permutations of the file arguments (quick 24 sampled + identity, thorough all 720) x "
+        "cases are run configurations over a 6-file probe set: permutations of the file arguments (quick 13 sampled + identity, thorough all 720) x "
         "{sort by filename, by error}; partitions into 2-3 groups; cold/warm/corrupted cache; 3 concurrent runs; in-process histories (10 repetitions, "
         "edit between runs, interleaved file sets); clone corpus: byte-identical copies of refurb's idiom files in one run, three orders. Non-trivial = the configuration differs from the reference run (identity order, one group, cold "
         "cache, fresh process); distinct = distinct configuration"
@@ -126,7 +126,7 @@ def run(ctx) -> None:
         # ---- permutations
         perms = list(itertools.permutations(names))
         if ctx.quick:
-            perms = [perms[0]] + rng.sample(perms[1:], 23)
+            perms = [perms[0]] + rng.sample(perms[1:], 13)
         jobs = [(p, by) for p in perms for by in ("filename", "error")]
 
         def one(job):
